@@ -282,3 +282,28 @@ Theorem p5_all_5xx_never_trips :
   forallb (fun o => negb (was_rejected o))
           (snd (run cfg_default (init_world cfg_default 1000000000000) (map p5_as_pinned p5_history))) = true.
 Proof. vm_compute. reflexivity. Qed.
+
+(* ------------------------------------------------------------------------------------
+   P6 (seeded change C01-12): errorx.In walks the chain once with errors.Unwrap and == instead of
+   errors.Is per candidate: it still finds a sentinel behind single-%w wrappers, but not inside
+   errors.Join / a multi-%w error (Unwrap() []error) nor through a custom Is method. *)
+Definition seen_by_unwrap_eq (s : eshape) : bool := match s with ShWrap2 => true | _ => false end.
+Definition server_acceptable_p6 (d : derr) : bool :=
+  match d with
+  | DShaped s b => if seen_by_unwrap_eq s then server_acceptable (bare b) else true   (* falls to codes.Acceptable: Unknown *)
+  | _ => server_acceptable d
+  end.
+Definition redis_acceptable_p6 (d : derr) : bool :=
+  match d with DShaped s b => seen_by_unwrap_eq s && redis_acceptable (bare b) | _ => redis_acceptable d end.
+
+Theorem p6_joined_deadline_refuted :
+  ~ (forall s b, server_acceptable_p6 (DShaped s b) = server_acceptable (bare b)).
+Proof. intros H. specialize (H ShJoinLast BDeadline). discriminate H. Qed.
+
+Theorem p6_net_timeout_refuted :
+  ~ (forall b, server_acceptable_p6 (DShaped ShCustomIs b) = server_acceptable (bare b)).
+Proof. intros H. specialize (H BDeadline). discriminate H. Qed.
+
+Theorem p6_joined_redis_nil_refuted :
+  ~ (forall s b, redis_acceptable_p6 (DShaped s b) = redis_acceptable (bare b)).
+Proof. intros H. specialize (H ShJoinFirst BRedisNil). discriminate H. Qed.
